@@ -20,7 +20,15 @@ to the REAL classes StandardNis, SlidingNis, FadingMemoryNis in both directions.
    SequentialFilter.checkManeuverDetection with a dimension that varies from step to step,
    are recorded and validated by TLC against TraceDetectors.tla (which reuses Step); the
    scaled-up twin of the last call checks the monotonicity clause on the real objects.
-4. (thorough) spec-level theorems on the merged state space for deeper histories.
+4. seam probe (driver side): inputs whose reported float metric equals the float bound bit
+   for bit must be detections ("reaches" is >=, as Verdict in Detectors.tla states), inputs
+   one representable value below must not.
+5. (thorough) spec-level theorems on the merged state space for deeper histories.
+
+Decided exactly by TLC: the statistic, the window contents, the fading recursion, the dof
+bookkeeping (all rational) and the comparison direction against a tabulated bound.  The
+chi-square quantile itself is scipy's (trusted base), the float quadratic form is compared
+with the exact NIS to 1e-9.
 """
 from __future__ import annotations
 
@@ -345,7 +353,7 @@ def plan_simulation(ctx: Ctx):
     nalpha = int(re.search(r"NAlpha = (\d+)", cfg_text).group(1))
     alphas = ALPHAS_WIDE[:nalpha]
     table = json.dumps(bound_table(alphas, dof_lattice(max_len, 8, 10, DELTAS_WIDE)))
-    nruns, num = (1, 30) if ctx.quick else (6, 120)
+    nruns, num = (1, 30) if ctx.quick else (6, 100)
     plan = []
     for r in range(nruns):
         d = ctx.sub(f"sim{r}")
@@ -495,7 +503,7 @@ def validate_traces(ctx: Ctx, traces, floats, nis_den, alphas, tag, workers):
 
 def plan_impl_to_spec(ctx: Ctx, rng):
     """Record runs of the real detectors now (main thread); TLC validates them later."""
-    shards = [(4, 300, 30)] if ctx.quick else [(1, 2500, 50), (4, 2500, 50), (10, 2500, 50)]
+    shards = [(4, 300, 30)] if ctx.quick else [(1, 1500, 50), (4, 1500, 50), (10, 1500, 50)]
     alphas = ALPHAS_WIDE
     plan = []
     for s, (nis_den, count, max_len) in enumerate(shards):
@@ -625,6 +633,10 @@ def replay(ctx: Ctx, rp: dict):
     from .. import sched
     sched.install()
     r = rp["replay"]
+    if "boundary" in r:
+        boundary_probe(ctx)
+        ctx.traces_validated += 1
+        return
     if "trace" in r:
         tr = r["trace"]
         nis_den = r.get("nis_den", 4)
@@ -632,13 +644,12 @@ def replay(ctx: Ctx, rp: dict):
         det = make_detector(tr["kind"], tr["w"], tr["p"], tr["q"], alphas[tr["a"] - 1])
         nrng = np.random.default_rng([ctx.seed, 99])
         steps, mets = [], []
-        twin = tr.get("twin") or [tr["steps"][-1][0], 0]
+        twin = None                 # the stored steps may be a prefix of the recorded run: make a fresh twin
         for j, s in enumerate(tr["steps"]):
             rr, s_mat = make_input(nrng, s[0] / nis_den, s[1], True)
             if j == len(tr["steps"]) - 1:
-                c2 = twin[0] / s[0] if s[0] else 1.0
-                got2, _, _ = _filter_call(copy.deepcopy(det), rr * math.sqrt(c2), s_mat)
-                twin = [twin[0], int(got2)]
+                got2, _, _ = _filter_call(copy.deepcopy(det), rr * 2.0, s_mat)
+                twin = [4 * s[0], int(got2)]
             got, flag, _ = _filter_call(det, rr, s_mat)
             steps.append([s[0], s[1], int(got), quantise(det.metric), flag])
             mets.append(det.metric)
@@ -651,7 +662,7 @@ def replay(ctx: Ctx, rp: dict):
         kind, w, (p, q), alpha, nis_den = r["kind"], r["w"], r["delta"], r["threshold"], r.get("nis_den", 1)
         hist = [tuple(x) for x in r["history"]]
         table = bound_table([alpha], dof_lattice(len(hist), max(d for _, d in hist), max(w, 1), [(p, q)] if kind == "fading" else []))
-        cfg = (f'SPECIFICATION TraceSpec\nCONSTANTS Kinds = {{"{kind}"}} Windows = {{1}} NAlpha = 1 NisVals = {{0}} NisDen = {nis_den} '
+        cfg = (f'SPECIFICATION TraceSpec\nCONSTANTS Kinds = {{"{kind}"}} Windows = {{1}} NAlpha = 1 Bank = FALSE NisVals = {{0}} NisDen = {nis_den} '
                f'Dims = {{1}} MaxLen = 50 FadeLen = 50 Trim = FALSE KeepHist = FALSE\nCONSTANT Deltas <- DeltasQuick\n'
                'INVARIANT DetectExplained\nINVARIANT MetricExplained\nINVARIANT EmitT\n')
         det = make_detector(kind, w, p, q, alpha)
